@@ -46,6 +46,21 @@ def run(tier, rng, C):
         cases.append({'id': cid, 'line': V.stack_line(cid, 'value2', layers), 'show': V.stack_show(layers),
                       'nontrivial': True, 'clean': clean})
 
+    # keys that end up both overriding and constant (first written `~k` with nothing to override, later `=k`;
+    # or the other way round), at depth 0-2: the rendered key carries no marker
+    for i in range(60 if tier == 'quick' else 2000):
+        ms = rng.choice([['~', '='], ['~', '=', ''], ['=', '~'], ['~', '~', '='], ['', '~', '='], ['~', '=', '~']])
+        depth = rng.randint(0, 2)
+        layers = []
+        for j, mk in enumerate(ms):
+            v = M((mk + 'foo', rng.choice([M(('x%d' % j, I(j))), L(I(j)), I(j), S('s%d' % j)])), ('sib', I(j)))
+            for d in range(depth):
+                v = M(('p%d' % d, v))
+            layers.append(v)
+        if rng.random() < 0.4:
+            layers.append(M(('look', S('${%sfoo}' % ''.join('p%d:' % d for d in reversed(range(depth)))))))
+        cid = C.case_id('k', i)
+        cases.append({'id': cid, 'line': V.stack_line(cid, 'value2', layers), 'show': V.stack_show(layers), 'nontrivial': True, 'clean': True})
     # strings that mix inventory-query brackets $[ ... ] (plain text for this implementation), braces and
     # resolvable references: every reference is rendered wherever it stands
     pcs = ['$[', ']', ' ${a} ', '${b:c}', 'txt ', '$[x]', '\\$[', '{', '}', ' if x == ${a}', '$', '${a${d}}']
@@ -90,7 +105,7 @@ def run(tier, rng, C):
                               'reason': prob, 'impl': C.describe(o), 'size': len(c['line'])})
         return fails
     rule = ('%d stacks (reference-bearing random stacks, acyclic reference graphs, plain marked stacks) rendered and then '
-            'rendered again, plus strings mixing $[ ... ] brackets, braces and resolvable references; oracle on the implementation output: no String / ValueList anywhere, no key with a leading marker '
+            'rendered again, plus keys that become both overriding and constant over several layers, plus strings mixing $[ ... ] brackets, braces and resolvable references; oracle on the implementation output: no String / ValueList anywhere, no key with a leading marker '
             '(clean-key inputs), second render identical; non-trivial = all (counted after de-duplication); successful renders: see histogram' % n)
     res = C.standard_run(cases, rule, key_fn=lambda c, m, i, r: 'model-impl-differ', extra_oracle=oracle)
     return res
